@@ -13,7 +13,7 @@ use std::collections::{BTreeMap, BTreeSet, BinaryHeap, LinkedList, VecDeque};
 use std::rc::Rc;
 use std::sync::Arc;
 
-#[cfg(feature = "full")]
+#[cfg(feature = "bitvec-f")]
 use bitvec::prelude::*;
 
 macro_rules! entry {
@@ -102,15 +102,21 @@ pub fn run_all(ctx: &mut Ctx, stream: &str) {
 	generated::run_generated(ctx, stream, f);
 	zerow!(ctx, stream, f; Vec<()>, VecDeque<()>, LinkedList<()>, Vec<UnitStruct>, Vec<PhantomData<u8>>, BTreeSet<()>,
 		Option<Vec<()>>, [(); 5], [UnitStruct; 3]);
-	#[cfg(feature = "full")]
+	#[cfg(feature = "bitvec-f")]
 	{
 		plain!(ctx, stream, f;
 			BitVec<u8, Lsb0>, BitVec<u8, Msb0>, BitVec<u16, Lsb0>, BitVec<u16, Msb0>,
 			BitVec<u32, Lsb0>, BitVec<u32, Msb0>, BitVec<u64, Lsb0>, BitVec<u64, Msb0>,
 			BitBox<u8, Lsb0>, BitBox<u8, Msb0>, BitBox<u16, Lsb0>, BitBox<u32, Msb0>, BitBox<u64, Lsb0>,
 			Vec<BitVec<u8, Msb0>>, Option<BitVec<u16, Lsb0>>,
-			bytes::Bytes, Option<bytes::Bytes>, Vec<bytes::Bytes>, (u8, bytes::Bytes),
 		);
+	}
+	#[cfg(feature = "bytes-f")]
+	{
+		plain!(ctx, stream, f; bytes::Bytes, Option<bytes::Bytes>, Vec<bytes::Bytes>, (u8, bytes::Bytes));
+	}
+	#[cfg(feature = "garray-f")]
+	{
 		if stream != "mem" {
 			// GenericArray has no DecodeWithMemTracking impl
 			nomem!(ctx, stream, f;
